@@ -35,6 +35,38 @@ CLAIMS = {
         "note": TB,
         "technique": "abstract interpretation (loop invariants, obligations) + dominance / reachability queries on the inlined supergraph",
     },
+    "C11": {
+        "category": "other",
+        "text": "Opcode/ErrorCode conversions are mutually inverse over the whole 16-bit range (exhaustive by case analysis of the return states of "
+                "from_u16: Ok entails input == discriminant, Err excludes every declared value, all declared values covered, RFC values 1..6 / 0..7, "
+                "as_bytes big-endian); each packet kind is serialised as the RFC sequence of segments (provenance of every concat element); the decoder "
+                "reads the same offsets (fixed 0/2/4, each string right after the previous NUL) and accepts the shortest encodings (4-byte DATA / ACK); "
+                "OptionType::from_str and as_str are mutually inverse on the four RFC names. decode(encode(p)) == p for all packet values is NOT decided.",
+        "design_ref": "DESIGN.md section 4 C11",
+        "note": TB,
+        "technique": "abstract interpretation of the conversion functions + table/sibling agreement over provenance terms of serializer and decoder",
+    },
+    "C14": {
+        "category": "other",
+        "text": "Client-side necessary conditions: the data phase is Worker::send/receive (no second implementation) and the shared worker/listener "
+                "clauses of C01/C02/C08/C15 hold; the worker is built from values adopted from the OACK (or RFC defaults after a plain ACK); download: "
+                "connect(reply source) and ACK 0 dominate the receive worker, upload: sender does not wait for an OACK reply; download target = "
+                "join(receive_directory, file_name(path)), WRQ carries the basename, upload reads the path; an ERROR reply leads to no worker/file and "
+                "tftpc prints it. End-to-end byte equality between two processes is NOT decided.",
+        "design_ref": "DESIGN.md section 4 C14",
+        "note": TB + " Requires the lib facts built with feature `client` and the tftpc bin facts.",
+        "technique": "provenance terms and dominance queries on the inlined supergraph of Client::run + composition of worker clauses",
+    },
+    "C17": {
+        "category": "proof",
+        "text": "For every argument vector: flag table read off the MIR string comparisons; each arm writes exactly its one documented setting, "
+                "spellings share an arm, no arm reads the configuration built so far (=> arms commute, last occurrence wins, order independence); "
+                "missing value / unparsable value / missing directory / unknown flag cannot reach an Ok return or the loop's back edge; documented "
+                "defaults; directory fallback only after the loop and only when still empty. Same for the client parser.",
+        "design_ref": "DESIGN.md section 4 C17",
+        "note": TB + " Documented flag table (README / --help) is the specification constant in rules/C17.py.",
+        "technique": "effect sets per match arm (commutation argument) + error-propagation check on return / back-edge states of the abstract interpreter",
+    },
     "C12": {
         "category": "other",
         "text": "Interleavings by non-interference: no static / shared captured state; single-port: routing key == remote of the per-transfer socket == "
@@ -160,4 +192,4 @@ CLAIMS = {
     },
 }
 
-PENDING = {("C%02d" % i): "check under construction (DESIGN.md section 4), not yet claimed" for i in range(1, 19)}
+PENDING = {}
